@@ -165,6 +165,33 @@ pub fn corr(ctx: &mut Ctx) {
                     if let Err(_) = c.opts.deflate { c.opts.deflate = Ok(6); }
                     return c;
                 }
+                // some are small files of many colours: a truecolour ramp that compresses to a few hundred bytes although
+                // its palette alone (up to 780 bytes of PLTE) is bigger than the whole file - a candidate that cannot win
+                if rng.chance(1, 6) {
+                    use crate::img::*;
+                    let ct = *rng.choose(&[2u8, 6]);
+                    let ncol = rng.range(200, 256) as u32;
+                    let (w, h) = (ncol, rng.range(1, 6) as u32);
+                    let c = channels(ct);
+                    let mut samples = Vec::with_capacity((w * h) as usize * c);
+                    for _y in 0..h {
+                        for x in 0..w {
+                            samples.extend([x as u16 % 256, (x / 2) as u16, 255 - (x as u16 % 256)]);
+                            if ct == 6 { samples.push(255); }
+                        }
+                    }
+                    let img = Grid { w, h, ct, depth: 8, palette: vec![], trns: None, samples }.pack(false);
+                    let enc = EncOpts { level: 9, idat_parts: 1, fixed_filter: Some(1), ..Default::default() };
+                    let input = img.encode_png(&mut rng, &enc);
+                    let mut opts = gen_opts(&mut rng, Profile::Lossless, false);
+                    opts.fast_evaluation = rng.chance(1, 4);
+                    opts.force = false;
+                    opts.color_type_reduction = true;
+                    opts.palette_reduction = true;
+                    opts.bit_depth_reduction = true;
+                    if let Err(_) = opts.deflate { opts.deflate = Ok(8); }
+                    return Case { img, class: "small-file-many-colours".into(), enc, input, opts };
+                }
                 let mut c = gen_case(&mut rng, Profile::Any, false, 8);
                 if rng.chance(1, 3) { c.opts.fast_evaluation = false; }
                 if let Err(_) = c.opts.deflate { c.opts.deflate = Ok(6); }
